@@ -297,14 +297,22 @@ func resolve(path string, nofollow bool) string {
 // (filesystem operation); env=false: they were caused by the library's own syscalls and the model must
 // already have predicted them.
 func (s *sut) afterStep(env bool) {
-	for _, r := range s.drainKernel() {
+	recs := s.drainKernel()
+	for i := 0; i < len(recs); i++ {
+		r := recs[i]
 		switch {
 		case !env:
 			fmt.Fprintf(s.out, "kauto %s\n", r.fields())
 		case r.mask&unix.IN_Q_OVERFLOW != 0:
 			fmt.Fprintf(s.out, "koverflow\n")
+		case r.mask == unix.IN_DELETE_SELF && i+1 < len(recs) && recs[i+1].wd == r.wd && recs[i+1].mask&unix.IN_IGNORED != 0:
+			// the kernel reports IN_DELETE_SELF and drops the mark in one go
+			fmt.Fprintf(s.out, "krelease %d 1\n", uint32(r.wd))
+			s.pending = append(s.pending, r)
+			i++
+			r = recs[i]
 		case r.mask&unix.IN_IGNORED != 0:
-			fmt.Fprintf(s.out, "krelease %d\n", uint32(r.wd))
+			fmt.Fprintf(s.out, "krelease %d 0\n", uint32(r.wd))
 		default:
 			fmt.Fprintf(s.out, "kemit %s\n", r.fields())
 		}
